@@ -771,6 +771,9 @@ func runC05(p *core.Program, r *core.Report) {
 	if c2 := resolveWLCtor(p, r, "R5.1a"); c2 != nil {
 		r.Borrow("R5.1a", func() { checkKeptSet(p, r, c2) })
 	}
+	// what separates the words is the recipe's own SeparatorChar/SeparatorFunc: the constructor
+	// installs no separator of its own (= C16 R16.2 for NewWLRecipe)
+	r.Borrow("R5.1b", func() { checkWLRecipeCtor(p, r) })
 	// R5.1b
 	if len(seps) > 1 {
 		r.Fail("R5.1b", name, "at most one separator append per iteration", p.InstrPos(c.Phi), fmt.Sprintf("%d separator appends", len(seps)))
